@@ -365,6 +365,20 @@ func analyse(w *Workload, lines []crashkit.Line) {
 		}
 	}
 	w.Acked, w.InProgress = acked, inprog
+	// operations acknowledged before the last completed leveldb commit are durable with all their effects: only later
+	// ones (and the interrupted one) may have to be repeated after the crash
+	w.RedoFrom = 0
+	for i := range w.Ops {
+		li, ok := ackLine[i]
+		if !ok && i < acked {
+			// acknowledged with an error: nothing to lose; position by the line of its answer is not recorded, treat as durable
+			// only if a later durable op follows (handled by the loop: RedoFrom moves past it then)
+			continue
+		}
+		if ok && li < lastCommitLine {
+			w.RedoFrom = i + 1
+		}
+	}
 	w.Durable = nil
 	for i, op := range w.Ops {
 		if op.Kind == "blk" {
